@@ -198,6 +198,7 @@ class Monitor:
 
         self.classes = [ml.ConvContract, ml.GroupNorm, ml.VectorNeuronNonlinear, ml.MaxNormPool, models.ConvBlock]
         self.trace = []
+        self.pool_inputs = []  # inputs of every MaxNormPool call (for the uniqueness premise of max pooling)
         self._orig = {}
 
     def __enter__(self):
@@ -209,6 +210,8 @@ class Monitor:
                 out = _orig(self_, *a, **kw)
                 mi = out[0] if isinstance(out, tuple) else out
                 self.trace.append((_name, mi))
+                if _name == "MaxNormPool" and a:
+                    self.pool_inputs.append((a[0], getattr(self_, "patch_len", 2)))
                 return out
 
             cls.__call__ = wrapped
@@ -222,6 +225,28 @@ class Monitor:
     def take(self):
         t, self.trace = self.trace, []
         return t
+
+    def take_pool_margin(self):
+        """smallest relative gap between the two largest pixel norms over all patches of all max-pool inputs seen
+        (1.0 if there was no max pool; patches whose largest norm is exactly 0 are harmless and skipped)"""
+        worst = 1.0
+        for mi, p in self.pool_inputs:
+            D = mi.D
+            for (k, _), b in mi.items():
+                b = np.asarray(b, dtype=np.float64)
+                c, sp = b.shape[0], b.shape[1 : 1 + D]
+                n = np.sqrt((b**2).reshape((c,) + sp + (-1,)).sum(-1))
+                sh = (c,)
+                for s_ in sp:
+                    sh += (s_ // p, p)
+                n = n.reshape(sh)
+                n = np.moveaxis(n, [2 + 2 * i for i in range(D)], list(range(-D, 0))).reshape((c, -1, p**D))
+                top = np.sort(n, axis=-1)[..., -2:]
+                ok = top[..., 1] > 0
+                if np.any(ok):
+                    worst = min(worst, float(np.min((top[..., 1][ok] - top[..., 0][ok]) / top[..., 1][ok])))
+        self.pool_inputs = []
+        return worst
 
 
 def equivariance_defect(apply, xb, grp, D, flags, lead=1, shifts_list=()):
@@ -259,14 +284,17 @@ def model_equivariance(model, xb, in_order, grp, D, flags, monitor=True, layer_t
                 y = model(to_mi(b, D, fl, order=in_order))
                 y = y[0] if isinstance(y, tuple) else y
                 tr = mon.take()
+                margins.append(mon.take_pool_margin())
             return np_blocks(y), [(n, np_blocks(m)) for n, m in tr]
         y = model(to_mi(b, D, fl, order=in_order))
         y = y[0] if isinstance(y, tuple) else y
         return np_blocks(y), []
 
+    margins = []
     y0, tr0 = forward(xb, flags)
+    base_margin = margins[0] if margins else 1.0
     # e/g/t: worst END-TO-END defect (decides); where: first intermediate layer whose defect exceeds layer_tol (naming only)
-    w = {"e": 0.0, "where": "output", "g": None, "t": None, "moved": False, "nonzero": False, "layer_e": 0.0}
+    w = {"e": 0.0, "where": "output", "g": None, "t": None, "moved": False, "nonzero": False, "layer_e": 0.0, "pool_margin": base_margin}
 
     def upd(e, where, g, t):
         if where == "output":
